@@ -872,7 +872,7 @@ func runConfigScenarioOpt(kind string, steps []cfgStep, second bool) []Event {
 			}
 			select {
 			case <-p.barrier:
-			case <-time.After(300 * time.Millisecond):
+			case <-time.After(2 * time.Second): // (generous: a loaded machine must not look like a lower concurrency level)
 				p.once.Do(func() { close(p.barrier) })
 			}
 		}
